@@ -207,7 +207,7 @@ def run_go2coq(log):
     """Regenerate coq/Gen/*.v from the working tree: runs harness/cmd/go2coq and every harness/cmd/*gen
     (each takes -repo <dir> -out <dir> and writes .v files). Returns (ok, message)."""
     cmds = sorted(d for d in os.listdir(os.path.join(HARNESS, "cmd"))
-                  if (d == "go2coq" or d.endswith("gen")) and os.path.isdir(os.path.join(HARNESS, "cmd", d)))
+                  if (d == "go2coq" or d.endswith("gen")) and glob.glob(os.path.join(HARNESS, "cmd", d, "*.go")))
     if not cmds:
         return True, "no translator present"
     msgs = []
